@@ -1096,6 +1096,10 @@ func (fx *fnExec) runHooks(event, target string, env *SpecEnv, where string) boo
 }
 
 func (fx *fnExec) runHook(h Hook, env *SpecEnv, where string) {
+	if fx.hookFired == nil {
+		fx.hookFired = map[string]bool{}
+	}
+	fx.hookFired[h.Where+"|"+h.Event+"|"+h.Target] = true
 	guard := tTrue
 	if h.When != nil {
 		guard = fx.evalBool(h.When, env)
@@ -1235,6 +1239,17 @@ func (fx *fnExec) runStoreHooks(x *ssa.Store, ad Ad, where string) {
 		}
 		ne := fx.curEnv()
 		ne.names["stored"] = fx.val(x.Val)
+		if fx.prevStored != nil {
+			ne.names["previous"] = fx.prevStored
+		}
+		if ad.Cell == nil && len(ad.Idx) > 0 {
+			// store into an object's field / a slice's element: the object (array) written to
+			var tt types.Type
+			if strings.HasPrefix(ad.Heap, "F.") && len(ad.rootTyps) > 0 && ad.rootTyps[0] != nil {
+				tt = types.NewPointer(ad.rootTyps[0])
+			}
+			ne.names["target"] = Sc{ad.Idx[0], tt}
+		}
 		fx.runHook(h, ne, where)
 	}
 }
@@ -1437,6 +1452,10 @@ func (fx *fnExec) storeTarget(x *ssa.Store) string {
 		return r.Name() + suffix
 	case *ssa.Global:
 		return r.Name() + suffix
+	}
+	// a field of an object reached through a pointer value: named like its heap
+	if pt, ok := cur.Type().Underlying().(*types.Pointer); ok && suffix != "" {
+		return "F." + typeKey(pt.Elem()) + suffix
 	}
 	return ""
 }
